@@ -115,6 +115,7 @@ class Builder:
     def __init__(self, log, root=None):
         self.log = log
         self.root = path if root is None else root
+        self.tracer = None      # the trace callable of the running query (set by the observer)
 
     def fn(self, name, depth=0):
         f = FN[name]
@@ -220,6 +221,10 @@ class Builder:
                 return lambda m: get_match(expr, m, must_match=False) is not None
             if kind == "v":
                 return lambda m: get(expr, m, default=None)
+            if kind == "mt":   # passes the tracer explicitly
+                return lambda m: get_match(expr, m, must_match=False, trace=self.tracer) is not None
+            if kind == "vt":
+                return lambda m: get(expr, m, default=None, trace=self.tracer)
             return lambda m: get(expr, m)
         raise ValueError(f"bad pred {p!r}")
 
